@@ -309,4 +309,101 @@ theorem srSegs_readable (data : Bytes) (r : Req) (h : Coherent r data) (auths : 
         exact ⟨by simp [readAll, restore_body _ _ e3], restore_getOK _ _ e3⟩
       · simp [runR, stepR, h.1] at hr
 
+
+theorem runK_append_some (c : Cfg) (oc : Bytes → BodyOutcome) (t u : List Ev) (s s' : KSt)
+    (h : runK c oc (t ++ u) s = some s') : ∃ s1, runK c oc t s = some s1 ∧ runK c oc u s1 = some s' := by
+  rw [runK_append] at h
+  cases h1 : runK c oc t s with
+  | none => simp [h1] at h
+  | some s1 => exact ⟨s1, rfl, by simpa [h1] using h⟩
+
+/-- the suffixes of `vrSegs` at which a path of ValidateRequest can stand -/
+def vrSuffixes : List (List Seg) := [vrSegs, vrSegs.tail, vrSegs.tail.tail, vrSegs.tail.tail.tail, vrSegs.tail.tail.tail.tail]
+
+theorem vrSegs_readable (c : Cfg) (oc : Bytes → BodyOutcome) (data : Bytes) : ∀ sg t, SegPath sg t → sg ∈ vrSuffixes →
+    ∀ s s', Coherent s.req data → runK c oc t s = some s' →
+      Coherent s'.req data ∨ Coherent s'.req (bodyExpected oc data) := by
+  intro sg t hp
+  induction hp with
+  | done => intro h; simp [vrSuffixes, vrSegs] at h
+  | straightRet ps rest t hm =>
+    intro h s s' hi hr
+    simp [vrSuffixes, vrSegs] at h
+    rcases h with ⟨rfl, rfl⟩ | ⟨rfl, rfl⟩ | ⟨rfl, rfl⟩
+    · simp at hm; subst hm
+      simp [runK, stepK] at hr; subst hr
+      exact Or.inl (secPhase_coherent _ _ _ _ hi).1
+    · simp at hm
+    · simp at hm
+      rcases hm with rfl | rfl
+      · simp [runK, stepK] at hr; subst hr
+        obtain ⟨b1, b2, _⟩ := bodyPhase_readable c.required oc s.req data hi
+        exact Or.inr ⟨b1, b2⟩
+      · simp [runK] at hr; subst hr; exact Or.inl hi
+  | straightFall ps rest t u hm hp ih =>
+    intro h s s' hi hr
+    simp [vrSuffixes, vrSegs] at h
+    rcases h with ⟨rfl, rfl⟩ | ⟨rfl, rfl⟩ | ⟨rfl, rfl⟩
+    · simp at hm
+      obtain ⟨s1, hr1, hr2⟩ := runK_append_some _ _ _ _ _ _ hr
+      rcases hm with rfl | rfl
+      · simp [runK, stepK] at hr1; subst hr1
+        exact ih (by simp [vrSuffixes, vrSegs]) _ s' (secPhase_coherent _ _ _ _ hi).1 hr2
+      · simp [runK] at hr1; subst hr1
+        exact ih (by simp [vrSuffixes, vrSegs]) _ s' hi hr2
+    · simp at hm; subst hm
+      exact ih (by simp [vrSuffixes, vrSegs]) s s' hi (by simpa using hr)
+    · simp at hm
+  | loopExit ps rest u hp ih =>
+    intro h s s' hi hr
+    simp [vrSuffixes, vrSegs] at h
+    rcases h with ⟨rfl, rfl⟩ | ⟨rfl, rfl⟩
+    · exact ih (by simp [vrSuffixes, vrSegs]) s s' hi hr
+    · exact ih (by simp [vrSuffixes, vrSegs]) s s' hi hr
+  | loopFall ps rest t u hm hp ih =>
+    intro h s s' hi hr
+    have h' := h
+    simp [vrSuffixes, vrSegs] at h'
+    obtain ⟨s1, hr1, hr2⟩ := runK_append_some _ _ _ _ _ _ hr
+    rcases h' with ⟨rfl, rfl⟩ | ⟨rfl, rfl⟩
+    · simp at hm; subst hm
+      simp [runK, stepK] at hr1; subst hr1
+      exact ih h _ s' hi hr2
+    · simp at hm; subst hm
+      simp [runK, stepK] at hr1; subst hr1
+      exact ih h _ s' hi hr2
+  | loopRet ps rest t hm =>
+    intro h s s' hi hr
+    simp [vrSuffixes, vrSegs] at h
+    rcases h with ⟨rfl, rfl⟩ | ⟨rfl, rfl⟩
+    · simp at hm
+      rcases hm with rfl | rfl
+      · simp [runK, stepK] at hr
+      · simp [runK, stepK] at hr; subst hr; exact Or.inl hi
+    · simp at hm
+      rcases hm with rfl | rfl
+      · simp [runK, stepK] at hr
+      · simp [runK, stepK] at hr; subst hr; exact Or.inl hi
+  | loopCont ps rest t u hm hp ih =>
+    intro h s s' hi hr
+    have h' := h
+    simp [vrSuffixes, vrSegs] at h'
+    rcases h' with ⟨rfl, rfl⟩ | ⟨rfl, rfl⟩
+    · cases t with
+      | nil => exact ih h s s' hi (by simpa using hr)
+      | cons x xs => simp at hm
+    · cases t with
+      | nil => exact ih h s s' hi (by simpa using hr)
+      | cons x xs => simp at hm
+  | loopBrk ps rest t u hm hp ih =>
+    intro h s s' hi hr
+    simp [vrSuffixes, vrSegs] at h
+    rcases h with ⟨rfl, rfl⟩ | ⟨rfl, rfl⟩
+    · cases t with
+      | nil => simp at hm
+      | cons x xs => simp at hm
+    · cases t with
+      | nil => simp at hm
+      | cons x xs => simp at hm
+
 end KinModel.C13.Trace
